@@ -42,6 +42,9 @@ def run(chk, repo):
     chk.doc("R19.4", "devices read and write the group's current frame on "
                      "every access (shared with C19)")
     c19.closures(chk, repo)
+    chk.doc("R19.3", "offset resolution of the descriptors (shared with "
+                     "C19): where a device's outputs land in the frame")
+    c19.descs(chk, repo)
     chk.doc("R30.4", "recorded counter positions are per packet")
     per_instance_rule(chk, repo, "R30.4", ["ebpfcat.ebpfcat.SterilePacket"], "one group checks and "
                       "clears working counters at another group's positions")
